@@ -472,7 +472,9 @@ def run(c):
     c.rule = ('cases = (a) random operation sequences (set/delete/freeze, up to 300 operations, up to 12 keys, 13 value '
               'classes, invalid keys, capacities 0/1/2/3/8/unbounded) on a real BoundedAttributes recorded and validated '
               'by Trace_Attributes; (b) behaviours of ResourceMerge.tla (what environment, code and two plugins provide, '
-              'schema URLs) assembled with the real Resource.create / merge and compared; non-trivial = at least 5 '
+              'schema URLs, empty service names from any source) assembled with the real Resource.create / merge and by '
+              'Deep.start (two lives) and compared; (c) curated: the value limit as a parameter, every kind of '
+              'process.executable.name in the service-name fallback; non-trivial = at least 5 '
               'operations / 2 provided keys')
     c.assumptions = ['Freeze is modelled by setting the flag the constructor sets last',
                      'environment-provided attributes are given through DEEP_RESOURCE_ATTRIBUTES / DEEP_SERVICE_NAME']
